@@ -144,9 +144,9 @@ def eval_case(spec):
                                     dict(d, got=str(got)[:400], candidates=str(exp[1])[:400]))
                     continue
                 mism = valcmp.hard(valcmp.match(got, exp))
-                if mism and mism[0][1] == 'enum-undecoded':
+                if mism:
                     from .c06 import has_128
-                    if has_128(var['type']):
+                    if has_128(var['type']) and valcmp.contains_undecoded_enum(got):
                         v.violation('c06:enum-undecoded-128-bit-discriminant:any:local', 'enum with a 128-bit discriminant is shown without a variant',
                                     dict(d, got=str(got)[:300]), prop='C06')
                         continue
